@@ -577,6 +577,16 @@ impl<H: Hal, const SIZE: usize> VirtQueue<H, SIZE> {
             // The device used a different descriptor chain to the one we were expecting.
             return Err(Error::WrongToken);
         }
+        // Don't trust the device to only report descriptor chains which are actually outstanding:
+        // recycling a free descriptor would unshare a buffer which isn't shared and corrupt the
+        // free list. Descriptors in use always have a non-zero length.
+        if self
+            .desc_shadow
+            .get(usize::from(index))
+            .is_none_or(|desc| desc.len == 0)
+        {
+            return Err(Error::WrongToken);
+        }
 
         // SAFETY: The caller ensures the buffers are valid and match the descriptor.
         unsafe {
